@@ -220,8 +220,11 @@ def _hexital(case, subject):
     rows = case["stream"]
     pre, chunks = twin.schedule(case)
     tf2 = case["hexital_tf2"]
+    # a second member timeframe created in the same call (each must collapse and convert copies of its own)
+    tf3 = {"T1": "T5", "T5": "T10", "H1": "T15", "S30": "T1"}.get(tf2)
+    third = [build_indicator({"cls": "HighLowAverage", "kw": {}}, timeframe=tf3)] if tf3 and len(rows) % 2 else []
     try:
-        hx = Hexital("c11", mk_candles(pre), [build_indicator({"cls": "HighLowAverage", "kw": {}}), build_indicator({"cls": "HighLowAverage", "kw": {}}, timeframe=tf2)], candlestick_type="HA")
+        hx = Hexital("c11", mk_candles(pre), [build_indicator({"cls": "HighLowAverage", "kw": {}}), build_indicator({"cls": "HighLowAverage", "kw": {}}, timeframe=tf2)] + third, candlestick_type="HA")
         hx.calculate()
         for ch in chunks:
             hx.append(mk_candles(ch))
@@ -230,6 +233,8 @@ def _hexital(case, subject):
     out = _judge_candles(hx.candles(), rows, None, False, "hexital-base", subject)
     if not out:
         out = _judge_candles(hx.candles(tf2), rows, tf2, False, "hexital-extra-timeframe", subject)
+    if not out and third:
+        out = _judge_candles(hx.candles(tf3), rows, tf3, False, "hexital-second-extra-timeframe", subject)
     return out
 
 
